@@ -12,27 +12,27 @@ Obs == ndJsonDeserialize(ObsFile)
 VARIABLE l
 Init == l = 1
 Next == l < Len(Obs) /\ l' = l + 1
-Report(i, fn, why, cls) == PrintT(ToJson([line |-> l, i |-> i, fn |-> fn, why |-> why, cls |-> cls]))
+Report(i, fn, why, cls) == PrintT(ToJson([line |-> l, i |-> i, fn |-> fn, why |-> why, cls |-> cls]))     \* cls: a tuple of class names
 Conforms ==
   LET o == Obs[l]
       z == EffectiveZone(o.set)
   IN
   CASE o.kind = "loc" ->
          LET t == <<o.n, o.s>> IN
-         IF ~KnownAt(z, t) THEN Report(0, "", "zone not tabulated", "")
+         IF ~KnownAt(z, t) THEN Report(0, "", "zone not tabulated", <<>>)
          ELSE LET sg == Segs[SegAt(z, t)] IN
-              /\ Len(o.out) = Len(LocProbes) \/ Report(0, "", "shape", "")
+              /\ Len(o.out) = Len(LocProbes) \/ Report(0, "", "shape", <<>>)
               /\ \A i \in 1..Len(LocProbes) :
                    LET v == Verdict(LocProbes[i], sg, t, o.f, o.out[i]) IN
-                   v = "ok" \/ Report(i, LocProbes[i].fn, v, OverlapClass(sg, t))
+                   v = "ok" \/ Report(i, LocProbes[i].fn, v, <<OverlapClass(sg, t), NameClass(StateIn(sg, t).abbr)>>)
     [] o.kind = "gap" ->
          LET at == <<o.an, o.as>> IN
-         IF ~KnownAt(z, at) THEN Report(0, "", "zone not tabulated", "")
+         IF ~KnownAt(z, at) THEN Report(0, "", "zone not tabulated", <<>>)
          ELSE LET sg == Segs[SegAt(z, at)] IN
-              IF ~\E i \in 1..Len(sg.tr) : sg.tr[i].at = at /\ GapOf(sg, i, <<o.n, o.s>>) THEN Report(0, "", "not a gap", "")
+              IF ~\E i \in 1..Len(sg.tr) : sg.tr[i].at = at /\ GapOf(sg, i, <<o.n, o.s>>) THEN Report(0, "", "not a gap", <<>>)
               ELSE LET i == CHOOSE j \in 1..Len(sg.tr) : sg.tr[j].at = at IN
-                   /\ Len(o.out) = Len(GapProbes) \/ Report(0, "", "shape", "")
+                   /\ Len(o.out) = Len(GapProbes) \/ Report(0, "", "shape", <<>>)
                    /\ \A j \in 1..Len(GapProbes) :
                         LET v == GapVerdict(GapProbes[j], sg, i, <<o.n, o.s>>, o.out[j]) IN
-                        v = "ok" \/ Report(j, GapProbes[j].fn, v, "gap")
+                        v = "ok" \/ Report(j, GapProbes[j].fn, v, <<"gap", "">>)
 =============================================================================
